@@ -562,6 +562,20 @@ func (x *Exec) evalCall(e gcl.Call, c *evalCtx) (typed, error) {
 	if e.Fun == "called" || e.Fun == "callres" {
 		return x.evalCallRef(e, c)
 	}
+	if e.Fun == "asType" && len(e.Args) == 2 { // asType(TypeName, e): gives a sort-polymorphic spec value a Go type
+		gt := x.specParamType(e.Args[0].String(), c.pkg)
+		if gt == nil {
+			return typed{}, fmt.Errorf("asType: unknown type %s", e.Args[0])
+		}
+		v, err := x.evalTyped(e.Args[1], c)
+		if err != nil {
+			return typed{}, err
+		}
+		if v.pend != nil {
+			return tv(v.pend(x.sortOf(gt)), gt), nil
+		}
+		return tv(v.t, gt), nil
+	}
 	if e.Fun == "fn" && len(e.Args) == 1 { // fn(pkg.Name) / fn(Name): the function value constant
 		name := e.Args[0].String()
 		pkgName, fname := "", name
@@ -638,6 +652,16 @@ func (x *Exec) evalCall(e gcl.Call, c *evalCtx) (typed, error) {
 	case "bcmp":
 		x.bytesVocab()
 		return tv(x.bcmp(args[0].t, args[1].t), intT), nil
+	case "deref": // deref(p): the value a pointer to a non-aggregate points to
+		if len(args) == 1 && args[0].typ != nil {
+			if pt, ok := args[0].typ.Underlying().(*types.Pointer); ok && !isAggregate(pt.Elem()) {
+				hn, hs := x.ptrHeap(pt.Elem())
+				v := smt.Select(x.heap(x.curState(c), hn, hs), args[0].t)
+				x.sideFacts(c, v, pt.Elem())
+				return tv(v, pt.Elem()), nil
+			}
+		}
+		return typed{}, fmt.Errorf("deref of %s", e.Args[0])
 	case "isnil":
 		if args[0].t.Sort == SliceSort {
 			return tv(smt.Eq(sArr(args[0].t), smt.IntLit(0)), types.Typ[types.Bool]), nil
